@@ -5,7 +5,9 @@
 namespace ShVerif.C28
 
 /-- One explicit `panic(` call (`kind = "panic"`, `detail` = its message literal or argument) or
-    one unchecked type assertion (`kind = "assert"`, `detail` = the expression), identified by
+    one unchecked type assertion (`kind = "assert"`, `detail` = the expression), or one shift whose
+    count is not syntactically non-negative — neither an integer literal nor a conversion to an
+    unsigned type — and could therefore panic with "negative shift amount" (`kind = "shift"`), identified by
     package, file, enclosing function and an ordinal among equal sites — never by line number. -/
 structure Site where
   pkg : String
